@@ -1659,6 +1659,7 @@ class VM:
             # Share the same buffer if the original has one
             if hasattr(arr, "_buffer"):
                 result._buffer = arr._buffer
+                result._byte_offset = arr._byte_offset + begin * arr._element_size
             return result
 
         def set_fn(*args):
